@@ -469,6 +469,13 @@ func (w *World) absentUUID() string {
 	for {
 		u := fmt.Sprintf("%08x-%04x-4%03x-8%03x-%012x", w.rng.U64()&0xffffffff, w.rng.U64()&0xffff, w.rng.U64()&0xfff, w.rng.U64()&0xfff, w.rng.U64()&0xffffffffffff)
 		if !w.seen[u] {
+			// uuids are hexadecimal in any letter case
+			switch w.rng.Intn(8) {
+			case 0:
+				u = strings.ToUpper(u)
+			case 1:
+				u = strings.ToUpper(u[:8]) + u[8:]
+			}
 			return u
 		}
 	}
